@@ -231,7 +231,7 @@ func c19Constructor(r *Run, ic *iterCopy, name string, f *FuncInfo, cs counterSu
 		return fail(name+": interval", fmt.Sprintf("the interval must be %s .. %s", want[0], want[1]))
 	}
 	inline := func(caller, callee *ssa.Function) bool {
-		return callee.Pkg == fn.Pkg && callee.Signature.Recv() == nil
+		return pkgOf(callee) == fn.Pkg && callee.Signature.Recv() == nil
 	}
 	paths, ok := walkPaths(fn, nil, inline)
 	if !ok || len(paths) == 0 {
@@ -447,7 +447,7 @@ func sameLenFamily(u ssa.Value) map[ssa.Value]bool {
 // (nil when there are several sites, or none, or the function's value is used otherwise).
 func singleSiteArg(p *ssa.Parameter) ssa.Value {
 	fn := p.Parent()
-	if fn == nil || fn.Pkg == nil {
+	if fn == nil || pkgOf(fn) == nil {
 		return nil
 	}
 	idx := -1
@@ -461,7 +461,7 @@ func singleSiteArg(p *ssa.Parameter) ssa.Value {
 	}
 	var site *ssa.Call
 	n := 0
-	for _, g := range functionsOf(fn.Pkg) {
+	for _, g := range functionsOf(pkgOf(fn)) {
 		for _, b := range g.Blocks {
 			for _, ins := range b.Instrs {
 				var buf [8]*ssa.Value
@@ -550,7 +550,7 @@ func c19Partition(r *Run, ic *iterCopy) []string {
 	size := ssa.Value(fn.Params[0])
 	// ---- guards, by paths: size <= 0 and non-sequences are errors before anything is computed
 	paths, complete := walkPaths(fn, nil, func(caller, callee *ssa.Function) bool {
-		return callee.Pkg == fn.Pkg && callee.Object() != nil && !callee.Object().Exported() && !funcHasLoop(callee)
+		return pkgOf(callee) == fn.Pkg && fnObject(callee) != nil && !fnObject(callee).Exported() && !funcHasLoop(callee)
 	})
 	okSize, okKind := complete, complete
 	nSizeErr, nKindErr := 0, 0
@@ -678,7 +678,7 @@ func c19Partition(r *Run, ic *iterCopy) []string {
 				if _, args, ok := reflectValueCall(c, "Slice"); ok && len(args) == 2 {
 					slices = append(slices, c)
 				}
-				if g := c.Call.StaticCallee(); g != nil && g.Pkg == fn.Pkg && len(g.Blocks) > 0 && !seenFn[g] && g.Object() != nil && !g.Object().Exported() {
+				if g := c.Call.StaticCallee(); g != nil && pkgOf(g) == fn.Pkg && len(g.Blocks) > 0 && !seenFn[g] && fnObject(g) != nil && !fnObject(g).Exported() {
 					seenFn[g] = true
 					reachFns = append(reachFns, g)
 				}
@@ -972,7 +972,7 @@ func c19LenSSA(r *Run) {
 		return
 	}
 	param := ssa.Value(fn.Params[0])
-	paths, ok := walkPaths(fn, nil, func(caller, callee *ssa.Function) bool { return callee.Pkg == fn.Pkg })
+	paths, ok := walkPaths(fn, nil, func(caller, callee *ssa.Function) bool { return pkgOf(callee) == fn.Pkg })
 	if !ok {
 		r.Lost("R5", "paths of the len helper")
 		return
